@@ -125,6 +125,9 @@ func c10Real(env *core.Env) *core.Result {
 	defer func() { rt.Cur = nil }()
 	tgt := &world.PagingTarget{Target: &world.Target{Inner: inner, Rotate: rotate}, PageSize: pageSize, EmptyPages: p.W("trailingEmptyPage") == 1}
 	repo := registry.NewRepository(tgt)
+	if p.W("remote") == 1 {
+		repo = registry.NewRepository(&world.RemoteLike{PagingTarget: tgt})
+	}
 	var (
 		gotDesc  ocispec.Descriptor
 		outcomes []*notation.VerificationOutcome
